@@ -42,7 +42,8 @@ type Call struct {
 type DagCase struct {
 	N           int        `json:"n"`
 	Script      []Call     `json:"script"`
-	Mode        string     `json:"mode"` // parallel | max | serial
+	Mode        string     `json:"mode"`                   // parallel | max | serial
+	SerialExtra int        `json:"serial_extra,omitempty"` // serial mode only: the caller ALSO gives a limit, >0: SetSerial then SetMaxParallel(k), <0: SetMaxParallel(-k) then SetSerial; serial stays in force
 	Max         int        `json:"max,omitempty"`
 	Outcomes    [][]string `json:"outcomes,omitempty"` // [task][attempt]: ok | err | skip (missing = ok)
 	Choices     []int      `json:"choices,omitempty"`  // which in-flight task (sorted by id) returns next: choice % len
@@ -437,6 +438,26 @@ func init() {
 var blockRe = regexp.MustCompile(`<(task\d\d)\.(\d+):A><(task\d\d)\.(\d+):B>`)
 
 // Execute runs the case against the real dag package.
+// ApplyMode configures the concurrency mode of g. A serial graph may additionally be given a limit through
+// SetMaxParallel, before or after SetSerial: "in serial mode never more than one" holds whatever else was configured.
+func ApplyMode(g *dag.Graph, mode string, max, serialExtra int) {
+	switch mode {
+	case "serial":
+		switch {
+		case serialExtra > 0:
+			g.SetSerial()
+			g.SetMaxParallel(serialExtra)
+		case serialExtra < 0:
+			g.SetMaxParallel(-serialExtra)
+			g.SetSerial()
+		default:
+			g.SetSerial()
+		}
+	case "max":
+		g.SetMaxParallel(max)
+	}
+}
+
 func Execute(c *DagCase) *Result {
 	m := BuildModel(c)
 	res := &Result{Model: m}
@@ -459,12 +480,7 @@ func Execute(c *DagCase) *Result {
 	}
 	g := dag.NewGraph("g")
 	g.TickerDuration = time.Microsecond
-	switch c.Mode {
-	case "serial":
-		g.SetSerial()
-	case "max":
-		g.SetMaxParallel(c.Max)
-	}
+	ApplyMode(g, c.Mode, c.Max, c.SerialExtra)
 	out := &sink{fails: c.SinkFails}
 	if c.Buffered {
 		g.SetOutputBuffer(out)
